@@ -1527,7 +1527,7 @@ def m_slice_index(ev, vals, n, s, path, gens):
 
 
 # ---------------------------------------------------------------- concrete containers / iteration / formatting
-@suffix_model(r"IntoIterator>::into_iter$|IntoIterator for &'a \[T; N\]>::into_iter$|IntoIterator for &'a \[T\]>::into_iter$|slice::<impl \[T\]>::iter$")
+@suffix_model(r"IntoIterator>::into_iter$|IntoIterator for &'a \[T; N\]>::into_iter$|IntoIterator for \[T; N\]>::into_iter$|IntoIterator for &'a \[T\]>::into_iter$|slice::<impl \[T\]>::iter$")
 def m_into_iter_array(ev, vals, n, s, path, gens):
     v = ev.deref_val(vals[0], s)
     if isinstance(v, tuple) and v and v[0] == "array":
@@ -1544,6 +1544,125 @@ def m_into_iter_array(ev, vals, n, s, path, gens):
 
 
 SUFFIX_MODELS.insert(0, SUFFIX_MODELS.pop())   # takes precedence over the generic into_iter identity
+
+
+def _concrete_seq(ev, v, s):
+    v = ev.deref_val(v, s)
+    if isinstance(v, tuple) and v and v[0] == "array":
+        return list(v[1])
+    if isinstance(v, tuple) and v and v[0] == "iterc":
+        return list(v[1][v[2]:])
+    return None
+
+
+def _map_items(ev, f, items, n, s, extra_first=None):
+    """apply f to every item in order, threading the state; -> [(results, state)] or None"""
+    states = [([], s)]
+    for item in items:
+        nxt = []
+        for acc, st in states:
+            r = _apply(ev, f, [item], n, st, None)
+            if r is None:
+                return None
+            nxt.extend((acc + [rv], st2) for rv, st2 in r)
+        states = nxt
+        if len(states) > 32:
+            return None
+    return states
+
+
+@suffix_model(r"iter::Iterator::map$|as core::iter::Iterator>::map$")
+def m_iter_map(ev, vals, n, s, path, gens):
+    """map over a concrete sequence with a closure: evaluated eagerly, in order (the adaptor chains the checks meet are
+    consumed completely by sum / fold / collect / a for loop)"""
+    items = _concrete_seq(ev, vals[0], s)
+    if items is None:
+        return _lazy_stage(ev, "map", vals, s)
+    if len(items) > 64:
+        return None
+    r = _map_items(ev, vals[1], items, n, s)
+    if r is None:
+        return None
+    return [(("iterc", tuple(acc), 0), st) for acc, st in r]
+
+
+def _lazy_stage(ev, kind, vals, s):
+    """an adaptor over a symbolic range: kept as a description ('iters', range, stages) that a per-element evaluation
+    (models.counting_loop) replays for one symbolic index"""
+    base = ev.deref_val(vals[0], s)
+    if isinstance(base, tuple) and base and base[0] == "struct" and (base[1].endswith("ops::Range") or base[1].endswith("ops::RangeInclusive")):
+        base = ("iters", base, ())
+    if isinstance(base, tuple) and base and base[0] == "iters" and isinstance(vals[1], tuple) and vals[1] and vals[1][0] in ("clo", "fnitem"):
+        return [(("iters", base[1], base[2] + ((kind, vals[1]),)), s)]
+    return None
+
+
+@suffix_model(r"iter::Iterator::filter$|as core::iter::Iterator>::filter$")
+def m_iter_filter(ev, vals, n, s, path, gens):
+    items = _concrete_seq(ev, vals[0], s)
+    if items is None:
+        return _lazy_stage(ev, "filter", vals, s)
+    return None
+
+
+@suffix_model(r"iter::Iterator::fold$|as core::iter::Iterator>::fold$")
+def m_iter_fold(ev, vals, n, s, path, gens):
+    items = _concrete_seq(ev, vals[0], s)
+    if items is None or len(items) > 64:
+        return None
+    states = [(vals[1], s)]
+    for item in items:
+        nxt = []
+        for acc, st in states:
+            r = _apply(ev, vals[2], [acc, item], n, st, n.get("ty"))
+            if r is None:
+                return None
+            nxt.extend(r)
+        states = nxt
+        if len(states) > 32:
+            return None
+    return states
+
+
+@suffix_model(r"iter::Iterator::sum$|as core::iter::Iterator>::sum$")
+def m_iter_sum(ev, vals, n, s, path, gens):
+    items = _concrete_seq(ev, vals[0], s)
+    w = ev.bits(n.get("ty"))
+    if items is None or not w or any(_w(x) != w for x in items):
+        return None
+    acc = T.K(w, 0)
+    for x in items:
+        acc = T.op("add", w, acc, x)
+    return [(acc, s)]
+
+
+@suffix_model(r"iter::Iterator::collect$|as core::iter::Iterator>::collect$")
+def m_iter_collect(ev, vals, n, s, path, gens):
+    v = ev.deref_val(vals[0], s)
+    if isinstance(v, tuple) and v and v[0] == "iterc" and "Vec<" in (n.get("ty") or ""):
+        return [(("array", tuple(v[1][v[2]:])), s)]
+    return None
+
+
+@suffix_model(r"array::<impl \[T; N\]>::map$")
+def m_array_map(ev, vals, n, s, path, gens):
+    """[a, b, c].map(f) on a literal array: f applied to the elements in order"""
+    v = ev.deref_val(vals[0], s)
+    if not (isinstance(v, tuple) and v and v[0] == "array" and len(v[1]) <= 64):
+        return None
+    states = [([], s)]
+    for item in v[1]:
+        nxt = []
+        for acc, st in states:
+            r = _apply(ev, vals[1], [item], n, st, None)
+            if r is None:
+                return None
+            for rv, st2 in r:
+                nxt.append((acc + [rv], st2))
+        states = nxt
+        if len(states) > 32:
+            return None
+    return [(("array", tuple(acc)), st) for acc, st in states]
 
 
 @suffix_model(r"iter::Iterator::rev$|iter::Iterator>::rev$")
@@ -1874,6 +1993,42 @@ def m_vec_push(ev, n, st, fp, path, gens):
                 s3 = ev.write_place(p, ("array", tuple(cur[1]) + (vals[0],)), s3)
             out.append((UNIT, s3))
     return out
+
+
+def m_vec_extend(ev, n, st, fp, path, gens):
+    """Vec::extend with a value whose items are known on the path (an Option, a literal array, a concrete iterator):
+    the same effects as pushing the items one by one"""
+    out = []
+    for p, s in ev.ev_place(n["args"][0], st, fp):
+        cur = ev.read_place(p, s)
+        if isinstance(cur, tuple) and cur and cur[0] == "ref":
+            p = cur[1]
+            cur = ev.read_place(p, s)
+        for vals, s2 in ev.seq_ev(n["args"][1:], s, fp):
+            src = ev.deref_val(vals[0], s2)
+            items = None
+            if _is_opt(src):
+                items = [src[3][0][1]] if src[2] == "Some" else []
+            elif isinstance(src, tuple) and src and src[0] == "array":
+                items = list(src[1])
+            elif isinstance(src, tuple) and src and src[0] == "iterc":
+                items = list(src[1][src[2]:])
+            if items is None:
+                r = ("obj", "extend#%d" % ev.fresh(), "()")
+                out.append((UNIT, s2.effect(("call", path, (("ref", p), vals[0]), UNIT))))
+                continue
+            s3 = s2
+            for it in items:
+                s3 = s3.effect(("call", "alloc::vec::Vec<T, A>::push", (("ref", p), it), UNIT))
+                if ev.unroll and isinstance(cur, tuple) and cur and cur[0] == "array":
+                    cur = ("array", tuple(cur[1]) + (it,))
+                    s3 = ev.write_place(p, cur, s3)
+            out.append((UNIT, s3))
+    return out
+
+
+m_vec_extend.wants_nodes = True
+SUFFIX_MODELS.insert(0, (re.compile(r"vec::Vec<T, A> as core::iter::Extend<T>>::extend$|vec::Vec<T, A>::extend$"), m_vec_extend))
 
 
 m_vec_push.wants_nodes = True
